@@ -7,5 +7,5 @@ CONSTANTS Alpha = {48,49,57,46,101,45,120}
  MaxFracP = 2
  Variant = "lz_invalid"
  EmitPaths = FALSE
-INVARIANTS Refines MemSafe Terminates EmitPath
+INVARIANTS MacroAgrees Refines MemSafe Terminates EmitPath
 CHECK_DEADLOCK FALSE
